@@ -350,8 +350,13 @@ func verifH_C01_loopy() {
 			if e := l.activeStreams.head.next; e != l.activeStreams.tail {
 				head = e
 			}
-			_, err := l.processData()
+			idle, err := l.processData()
 			verifAssert(err == nil, "write round succeeds")
+			if verifProp == 3 {
+				// run() blocks waiting for control frames when a round reports idle: that is only sound when no stream is
+				// left that the writer could serve
+				verifAssert(!idle || connBefore <= 0 || l.activeStreams.head.next == l.activeStreams.tail, "a write round reports \"nothing to write\" only when the connection window is exhausted or no active stream remains")
+			}
 			if verifProp == 3 && head != nil && connBefore > 0 {
 				s := g.byID(head.id)
 				progressed := len(verifWrites) > before
